@@ -59,6 +59,8 @@ pub struct Profile {
     pub huge_texts: bool,
     /// sizes that must be rejected before any allocation (above 2^56, near isize::MAX / usize::MAX)
     pub overflow_sizes: bool,
+    /// callbacks that drop or clone another handle while the operation runs
+    pub callback_fx: bool,
 }
 
 impl Profile {
@@ -88,10 +90,11 @@ impl Profile {
             fill_bias: false,
             huge_texts: false,
             overflow_sizes: false,
+            callback_fx: false,
         }
     }
     pub fn sharing() -> Self {
-        Profile { slots: 4, w_clone: 30, w_drop: 10, w_trunc: 16, ..Self::base() }
+        Profile { slots: 4, w_clone: 30, w_drop: 10, w_trunc: 16, w_retain: 6, w_extend: 8, callback_fx: true, ..Self::base() }
     }
     pub fn statics() -> Self {
         Profile { slots: 4, w_static: 25, w_ctor: 3, w_clone: 14, w_trunc: 18, ..Self::base() }
@@ -109,7 +112,7 @@ impl Profile {
         Profile { min_ops: 3, max_ops: 14, slots: 3, w_clone: 16, w_extend: 8, max_text: 120, ..Self::base() }
     }
     pub fn panics() -> Self {
-        Profile { min_ops: 2, max_ops: 12, slots: 3, w_clone: 14, w_retain: 18, w_extend: 22, w_convert: 10, callback_panics: true, max_text: 80, ..Self::base() }
+        Profile { min_ops: 2, max_ops: 12, slots: 3, w_clone: 14, w_retain: 18, w_extend: 22, w_convert: 10, callback_panics: true, callback_fx: true, max_text: 80, ..Self::base() }
     }
     pub fn index() -> Self {
         Profile { slots: 3, w_index: 40, w_clone: 14, w_trunc: 14, max_text: 64, ..Self::base() }
@@ -220,6 +223,15 @@ pub fn text_arg_strategy(p: &Profile) -> BoxedStrategy<Text> {
     Union::new_weighted(v).boxed()
 }
 
+pub fn fx_strategy(p: &Profile) -> BoxedStrategy<Option<Fx>> {
+    if p.callback_fx {
+        let n = p.slots;
+        prop_oneof![3 => Just(None), 2 => (0u16..=6, 0u8..n, any::<bool>()).prop_map(|(at, slot, drop)| Some(Fx { at, slot, drop }))].boxed()
+    } else {
+        Just(None).boxed()
+    }
+}
+
 pub fn iter_strategy(p: &Profile) -> BoxedStrategy<IterSpec> {
     let kinds = vec![
         IterKind::Char,
@@ -250,12 +262,12 @@ pub fn iter_strategy(p: &Profile) -> BoxedStrategy<IterSpec> {
     };
     let slots = p.slots;
     let loose = prop_oneof![4 => Just(None), 1 => select(vec![Some(1u16), Some(7), Some(40), Some(1000)])];
-    (select(kinds), vec(text_strategy(p.max_text.min(40)), 0..=5), vec(0u8..slots, 0..=3), hint, panic_at, loose)
-        .prop_map(|(kind, items, slots, hint, panic_at, loose)| {
+    (select(kinds), vec(text_strategy(p.max_text.min(40)), 0..=5), vec(0u8..slots, 0..=3), hint, panic_at, loose, fx_strategy(p))
+        .prop_map(|(kind, items, slots, hint, panic_at, loose, fx)| {
             let loose = if hint.is_some() { None } else { loose };
             let slots = if kind == IterKind::LeanSlots { slots } else { vec![] };
             let items = if kind == IterKind::LeanSlots { vec![] } else { items };
-            IterSpec { kind, items, slots, hint, panic_at, loose }
+            IterSpec { kind, items, slots, hint, panic_at, loose, fx }
         })
         .boxed()
 }
@@ -264,15 +276,15 @@ pub fn pieces_strategy(p: &Profile) -> BoxedStrategy<Pieces> {
     let opt = |on: bool| -> BoxedStrategy<Option<u16>> {
         if on { prop_oneof![3 => Just(None), 2 => (0u16..=4).prop_map(Some)].boxed() } else { Just(None).boxed() }
     };
-    (vec(text_strategy(p.max_text.min(40)), 0..=4), opt(true), opt(p.callback_panics))
-        .prop_map(|(pieces, err_at, panic_at)| {
+    (vec(text_strategy(p.max_text.min(40)), 0..=4), opt(true), opt(p.callback_panics), fx_strategy(p))
+        .prop_map(|(pieces, err_at, panic_at, fx)| {
             // a panic position hides a later error position and vice versa: keep at most one, the earlier
             let (err_at, panic_at) = match (err_at, panic_at) {
                 (Some(e), Some(q)) if e <= q => (Some(e), None),
                 (Some(_), Some(q)) => (None, Some(q)),
                 x => x,
             };
-            Pieces { pieces, err_at, panic_at }
+            Pieces { pieces, err_at, panic_at, fx }
         })
         .boxed()
 }
@@ -394,8 +406,8 @@ pub fn op_strategy(p: &Profile) -> BoxedStrategy<Op> {
     } else {
         Just(None).boxed()
     };
-    let retain = (slot(), any::<u64>(), panic_at, any::<bool>())
-        .prop_map(|(slot, mask, panic_at, try_)| Op::Retain { slot, r: RetainSpec { mask, panic_at }, try_ })
+    let retain = (slot(), any::<u64>(), panic_at, any::<bool>(), fx_strategy(p))
+        .prop_map(|(slot, mask, panic_at, try_, fx)| Op::Retain { slot, r: RetainSpec { mask, panic_at, fx }, try_ })
         .boxed();
     let reserve = (slot(), size_strategy(p), any::<bool>()).prop_map(|(slot, n, try_)| Op::Reserve { slot, n, try_ }).boxed();
     let shrink = prop_oneof![
@@ -496,7 +508,7 @@ pub mod bytes {
         };
         let panic_at = if u.ratio(1u8, 4u8).unwrap_or(false) { Some(u.int_in_range(0u16..=8).unwrap_or(0)) } else { None };
         let loose = if hint.is_none() && u.ratio(1u8, 5u8).unwrap_or(false) { Some(*u.choose(&[1u16, 7, 40, 1000]).unwrap_or(&7)) } else { None };
-        IterSpec { kind, items, slots, hint, panic_at, loose }
+        IterSpec { kind, items, slots, hint, panic_at, loose, fx: None }
     }
 
     fn pieces(u: &mut Unstructured) -> Pieces {
@@ -507,7 +519,7 @@ pub mod bytes {
             1 => (None, Some(u.int_in_range(0u16..=4).unwrap_or(0))),
             _ => (None, None),
         };
-        Pieces { pieces, err_at, panic_at }
+        Pieces { pieces, err_at, panic_at, fx: None }
     }
 
     /// Decodes a whole history (up to `max_ops` operations) from raw fuzz input.
@@ -542,7 +554,7 @@ pub mod bytes {
                 28 => Op::InsertStr { slot, idx: idx(&mut u), text: text_arg(&mut u), try_ },
                 29..=30 => Op::Truncate { slot, n: idx(&mut u), try_ },
                 31 => Op::Clear { slot },
-                32 => Op::Retain { slot, r: RetainSpec { mask: u.arbitrary().unwrap_or(0), panic_at: if u.ratio(1u8, 4u8).unwrap_or(false) { Some(u.int_in_range(0u16..=20).unwrap_or(0)) } else { None } }, try_ },
+                32 => Op::Retain { slot, r: RetainSpec { mask: u.arbitrary().unwrap_or(0), panic_at: if u.ratio(1u8, 4u8).unwrap_or(false) { Some(u.int_in_range(0u16..=20).unwrap_or(0)) } else { None }, fx: None }, try_ },
                 33..=34 => Op::Reserve { slot, n: size(&mut u, &grid), try_ },
                 35 => Op::ShrinkTo { slot, n: size(&mut u, &grid), try_ },
                 36 => Op::ShrinkToFit { slot, try_ },
